@@ -285,6 +285,44 @@ def build() -> Check:
               f"BatchResult built with completion policy `{cfg}` (first run and replay must both use self.completion_config)", where=f"line {ln}")
     _handler_input_from_whole_history(ck, prog)
     _suspension_latch(ck, prog)
+    # R2 what a replay answers with is what the record holds: CheckpointedResult.create_from_operation copies result AND error out of the details object that
+    # belongs to the operation's type. The executor cells start from a CheckpointedResult and never look at how it was filled: an arm that reads the wrong
+    # details object, or drops the error, answers a recorded failure with "Unknown error" (or a recorded result with None) on every replay.
+    cfo = prog.cls("state", "CheckpointedResult").methods.get("create_from_operation")
+    if cfo is None:
+        raise AnalysisError("CheckpointedResult.create_from_operation not found")
+    op_cls = prog.cls("lambda_service", "Operation")
+    detail_fields = {f.name for f in op_cls.all_fields() if f.name.endswith("_details")}
+    arms = [c for m_ in ast.walk(cfo.node) if isinstance(m_, ast.Match) for c in m_.cases]
+    n_arms = 0
+    for c in arms:
+        if not (isinstance(c.pattern, ast.MatchValue) and isinstance(c.pattern.value, ast.Attribute)):
+            continue
+        tname = c.pattern.value.attr
+        want_d = tname.lower() + "_details"
+        if want_d not in detail_fields:
+            raise AnalysisError(f"create_from_operation: no Operation.{want_d} for OperationType.{tname}")
+        n_arms += 1
+        local = {}
+        got = {}
+        for st in c.body:
+            if isinstance(st, ast.Assign) and len(st.targets) == 1 and isinstance(st.targets[0], ast.Name):
+                nm, v = st.targets[0].id, st.value
+                if isinstance(v, ast.Attribute) and isinstance(v.value, ast.Name) and v.value.id == "operation":
+                    local[nm] = v.attr
+                else:
+                    src = v.body if isinstance(v, ast.IfExp) else v
+                    if isinstance(src, ast.Attribute) and isinstance(src.value, ast.Name):
+                        got[nm] = (local.get(src.value.id, src.value.id), src.attr)
+                    elif isinstance(src, ast.Attribute) and isinstance(src.value, ast.Attribute):
+                        got[nm] = (src.value.attr, src.attr)
+                    else:
+                        got[nm] = (None, ast.unparse(v))
+        ok_ = got.get("result") == (want_d, "result") and got.get("error") == (want_d, "error")
+        ck.ob("R2.recorded-outcome-is-read-from-the-operations-own-details", fn_construct(cfo), ok_,
+              f"for OperationType.{tname} result is read from {got.get('result')} and error from {got.get('error')}; expected ({want_d!r}, 'result') / ({want_d!r}, 'error'): "
+              "a replay answers the recorded outcome with something else", cell=tname)
+    ck.floor("checkpointed_result_arms", n_arms, 4)
     return ck
 
 
